@@ -220,6 +220,22 @@ def big_batches(seed):
                         break
             except Exception as ex:
                 bad.append(("C01.no-error", dict(exc=type(ex).__name__, **w), None, repr(ex)[:200]))
+    # arrays that rely on broadcasting along the domain axis (length 1 there): a flat filter or a flat signal is the
+    # same as the explicitly repeated one
+    Fs, Ss = F[:, :1].copy(), S[:7].copy()
+    for name, kw in domains:
+        w = dict(kind=name, broadcast="flat filters (.., 1)")
+        try:
+            got = np.asarray(dreye.calculate_capture(Fs, Ss, **kw), float)
+            want = np.asarray(dreye.calculate_capture(np.repeat(Fs, nd, axis=1), Ss, **kw), float)
+            if got.shape != want.shape or not np.allclose(got, want, rtol=1e-12, atol=0):
+                bad.append(("C01.value", w, want.tolist(), got.tolist()))
+            got = np.asarray(dreye.calculate_capture(F, Ss[:, :1], **kw), float)
+            want = np.asarray(dreye.calculate_capture(F, np.repeat(Ss[:, :1], nd, axis=1), **kw), float)
+            if got.shape != want.shape or not np.allclose(got, want, rtol=1e-12, atol=0):
+                bad.append(("C01.value", dict(kind=name, broadcast="flat signals (.., 1)"), want.tolist(), got.tolist()))
+        except Exception as ex:
+            bad.append(("C01.no-error", dict(exc=type(ex).__name__, **w), None, repr(ex)[:200]))
     return bad
 
 
